@@ -29,4 +29,5 @@ var Registry = map[string]func(tier string, args []string) int{
 	"C16": func(t string, a []string) int { return C16(t) },
 	"C01": C01,
 	"C02": C02,
+	"C06": C06,
 }
